@@ -129,7 +129,7 @@ def crash_summary(err):
 def crash_class(rc, err):
     # class = kind of sanitizer report + innermost library frame (address free)
     kind = 'crash'
-    m = re.search(r'ERROR: AddressSanitizer: ([\w-]+)', err)
+    m = re.search(r'ERROR: AddressSanitizer: (?:attempting )?([\w-]+)', err)
     if m:
         kind = 'asan:' + m.group(1)
     elif 'runtime error:' in err:
@@ -141,7 +141,7 @@ def crash_class(rc, err):
     frame = '?'
     for fm in re.finditer(r'#\d+ 0x[0-9a-f]+ in (\w+) ([^\s]+)', err):
         fn, loc = fm.group(1), fm.group(2)
-        if '/src/' in loc and '/verif/' not in loc and not fn.startswith('sim_') and not fn.startswith('__'):
+        if '/src/' in loc and '/verif/' not in loc and not fn.startswith('sim_') and not fn.startswith('__') and fn not in ('xfree', 'xmalloc', 'xrealloc'):
             frame = fn
             break
     return kind + '@' + frame
@@ -172,6 +172,7 @@ def main():
     agg = dict(runs=0, steps_total=0, steps_max=0, switches_total=0, threads_total=0, counters={}, strategies={}, violation_classes={}, samples=[], nondet=0, infra=0, variants={}, phases=[])
     distinct = set()
     nontrivial_runs = 0
+    total_r_lines = 0
     vlines = []      # (variant, seed, planpath, cls, msg)
     crashes = []     # (variant, seed, rc, logtail)
     infra_msgs = []
@@ -240,6 +241,7 @@ def main():
                 if t == 'R ':
                     parts = line.split()
                     ph_runs += 1
+                    total_r_lines += 1
                     if parts[6] == '1':
                         nontrivial_runs += 1
                         distinct.add((parts[4], parts[5]))
@@ -339,7 +341,7 @@ def main():
     wall = time.time() - t0
     # ---- evidence ------------------------------------------------------------------------------
     cov = {
-        'evaluations': agg['runs'],
+        'evaluations': max(agg['runs'], total_r_lines),
         'distinct_nontrivial': len(distinct),
         'rule': RULES.get(pid, '') + ' A run is non-trivial when it had >= 2 live simulated threads, or >= 1 fired fault, or >= 2 operations on one object; '
                 'distinct = distinct (configuration tuple, schedule signature) pairs among non-trivial runs, counted from the per-run result lines.',
@@ -376,13 +378,13 @@ def main():
         print('VIOLATION property=%s replay=%s class=%s %s' % (pid, jpath, cls, msg))
     for m in sim_faults[:10]:
         print('SIMULATOR-FAULT: ' + m)
-    print('%s %s: %d runs, %d distinct non-trivial, %d violations, %d known findings, %.1fs' % (pid, tier, agg['runs'], len(distinct), len(reported), len(known_hits), wall))
+    print('%s %s: %d runs, %d distinct non-trivial, %d violations, %d known findings, %.1fs' % (pid, tier, max(agg['runs'], total_r_lines), len(distinct), len(reported), len(known_hits), wall))
     sys.stdout.flush()
     if reported:
         return 1
     if sim_faults:
         return 2
-    if agg['runs'] == 0:
+    if max(agg['runs'], total_r_lines) == 0:
         print('no runs executed')
         return 2
     return 0
@@ -437,9 +439,11 @@ RULES.update({
     'C05': 'Each seed draws a data set (6..30 x 1..6, 1..3 responses), a learner, a routine (LeaveOneOut, KFoldCV with balanced/unbalanced/non-contiguous user labels, BootstrapRandomGroupsCV, direct calls of the group generators), group/iteration/thread counts and a schedule; oracles: partition, public-API refit on the other folds, own-response insensitivity, fold inference for one-iteration bootstrap, finite predictions, residual definition.',
     'C18': 'Each seed draws a routine (PCA, PLS, CPCA, LeaveOneOut with MLR, KMeans with every initialiser, NelderMeadSimplex), a degeneracy class (rank-deficient integer outer products, constant columns, all-constant, duplicated rows, tiny shapes, more components than rank, constant / two-valued responses, constant block, duplicated points, flat objective), shape, component count, scaling, optional 2^-k perturbation and a simulated processor count; the call runs under a step budget of 20000 x (steps of the same routine on a regular problem of the same shape, measured in the same run) + 1e6, and is unwound in-process when the budget is exhausted.',
     'C14': 'Each seed draws a history of 1..40 operations over pools of 4 live containers per kind (matrix, dvector, uivector, ivector, strvector, tensor, dvectorlist; a random subset of kinds is enabled per run): create, resize, copy into fresh and live destinations, append rows/columns whose length is drawn around the current shape (zero, shorter, equal, longer), delete, set/get in and out of range, extend, sort, remove, re-initialise. The allocator hands out NaN-garbage-filled blocks, moves blocks on realloc by a per-run coin, and in 20% of the histories fails the k-th allocation of one operation. After every operation all 28 containers are compared cell by cell with std::vector shadows. ASan+UBSan build.',
+    'C17': 'Each seed draws 3..80 objects x 1..6 variables in general position, an algorithm (MDC, MaxDis + MaxDis_Fast, KMeansppCenters after srand_, KMeans with initialiser 0..3, the random one seeded), selection size / cluster count, metric, nthreads 1..8 and a strategy S0-S3; two simulated executions per seed (one worker canonical schedule; requested thread count under the explored schedule and another clock origin).',
     'C16': 'Each seed draws a pool of 2..4 PCA/CPCA/PLS models (fitted on data scaled by 1e-9..1e9, or synthetic with fields of those magnitudes and empty optional fields) and a history of 1..5 Write/Read operations over 1..2 paths; 40% of histories attach one fault to one write (I/O error, disk full, short write, kill with or without torn last write) at a VFS call drawn uniformly over the call count of that very operation (measured by a dry run on a copy). Reads are checked against a reference map path -> last write that completed without a fault.',
 })
 ASSUMPTIONS = {
+    'C17': ['max-min and farthest-from-centroid checks are skipped (counted) when the top two candidates tie to 1e-9 relative', 'the nearest-centroid check uses the documented stop rule slack 2*sqrt(cols)*1e-3 and is skipped when the number of labelling sweeps may have reached the cap of 100', 'cosine "distance" is the quantity metricspace.c computes (a similarity); the oracle uses the same definition'],
     'C14': ['leaks are not violations', 'UBSan nonnull-attribute (qsort(NULL,0), memcpy(NULL,..,0)) is disabled: no memory is touched', 'NewStrVector(n>0) and NewDVectorList(n>0) are not generated (their elements are documented as to-be-filled by the caller)', 'TensorAppendRow is not generated (its own check contradicts its name)'],
     'C18': ['a call that uses more than 20000 times the steps of a regular call of the same shape is declared non-terminating (largest ratio observed for terminating calls is reported under counters max.steps_ratio_to_regular.*)', 'numerical rank is decided by a long-double elimination with a clear pivot gap; ambiguous cases skip the rank-dependent checks'],
     'C16': ['durability across power loss is not asserted (the property does not quantify over crash points)', 'a path whose last write was faulted is indeterminate until the next clean write and is not read', 'failed opens of the database file itself are not injected (the library does not survive them; not a C16 matter)'],
